@@ -398,6 +398,15 @@ def run(ctx):
         ctx.stats.evaluations += r["execs"]
         ctx.stats.nontrivial_extra += r["corpus"]
         ctx.stats.cls("execs:" + t.name, r["execs"])
+        # one actual corpus unit per target as an evidence sample (a unit libFuzzer kept because it reached new code)
+        try:
+            cd = os.path.join(vlib.scratch_root(), "c20", "corpus-" + t.name)
+            units = sorted((f for f in os.listdir(cd) if not f.startswith("seed-")), key=lambda f: (-os.path.getsize(os.path.join(cd, f)), f))
+            if units and len(ctx.stats.samples) < 16:
+                data = open(os.path.join(cd, units[len(units) // 2]), "rb").read()[:160]
+                ctx.stats.samples.append({"target": t.name, "corpus_unit": vlib.jsonable(data)})
+        except OSError:
+            pass
         if r["execs"] > 0:
             started += 1
         if 97 in r["rc"] or (r["execs"] == 0 and not r["artefacts"] and not r["init_report"]):
